@@ -341,9 +341,12 @@ def build_native(nat, spec, units, work):
             pass
     cmd = ['g++', '-std=c++14', '-O2', '-DNDEBUG', '-w', '-I', inc, '-I', REPO, '-I', os.path.join(REPO, 'include'),
            '-I', os.path.join(VERIF, 'prelude'), '-I', os.path.join(VERIF, 'specs'), '-I', work] + nat.cxxflags + \
-          [os.path.join(sdir, nat.src)] + [os.path.join(sdir, s) for s in nat.extra_src] + objs + ['-o', exe] + nat.ldflags
+          [os.path.join(sdir, nat.src)] + [os.path.join(sdir, s) for s in nat.extra_src] + objs + ['-o', exe]
     if nat.link_photon:
-        cmd += [os.path.join(REPO, '_build/output/libphoton.a'), '-lpthread', '-ldl', '-lrt']
+        cmd += [os.path.join(REPO, '_build/output/libphoton.a')]
+    cmd += nat.ldflags
+    if nat.link_photon:
+        cmd += ['-lpthread', '-ldl', '-lrt']
     rc, out, _ = sh(cmd, timeout=600)
     logs += '$ ' + ' '.join(cmd) + '\n' + out
     if rc != 0:
